@@ -9,6 +9,7 @@ INVARIANT NoForgery
 INVARIANT PushedOnlyValid
 INVARIANT RefusedIsNoop
 INVARIANT HandOffKeeps
+INVARIANT CommitmentPreserved
 PROPERTY PushedStable
 PROPERTY SigningOnlyAdds
 CHECK_DEADLOCK FALSE
